@@ -179,7 +179,6 @@ class R:
     """Symbolic real (or integer) scalar; may be one of the specials nan / inf / -inf."""
 
     __slots__ = ('t', 'special')
-    __array_priority__ = 1000
 
     def __init__(self, t=None, special=None):
         self.t = t
